@@ -1,6 +1,6 @@
 # table consumed by tools_manifest.py
 ENGINES = [
-    {"name": "vv", "path": "vv/", "serves_properties": ["C04", "C05", "C06", "C07", "C09", "C13", "C15", "C17", "C18", "C19"], "kind_free_text": "runtime monitors: generators, independent flatbuffer reader/writer, compile drivers, sharded worker harness, evidence/findings"},
+    {"name": "vv", "path": "vv/", "serves_properties": ["C02", "C04", "C05", "C06", "C07", "C09", "C12", "C13", "C15", "C17", "C18", "C19"], "kind_free_text": "runtime monitors: generators, independent flatbuffer reader/writer, compile drivers, sharded worker harness, evidence/findings"},
 ]
 NOTES = ("Technique family: runtime monitoring and sanitizers. Every check runs the real code from /repo's working tree (codec rebuilt from the C "
          "sources on every run) under generated workloads with oracles observing executions; verdicts are violated / held-on-what-was-observed / "
@@ -93,3 +93,20 @@ check("C04", "exploration",
       "Execution and block-job model are my reading of the architecture (the one stated in the property); kernel-kernel WAR/WAW are ordered by the in-order block pipeline and "
       "are not hazards (DESIGN section 8).",
       "offline runtime trace checker (hazard simulation over recorded command streams)", "DESIGN.md 4/C04")
+
+check("C02", "exploration",
+      "Offline trace check over output artefacts: every command stream of every compiled model (campaign over 9 network families x accelerators x memory modes x strategies x "
+      "cache sizes x allocators) is framed-parsed, decoded with architectural register tracking, and the exact byte footprint of every operation and DMA (tiles, strides, "
+      "NHCWB16 bricks, consumed rows/columns, per-core weight and scale ranges, SHRAM buffers and table slots) is compared with the extents the output file publishes for the "
+      "constants, scratch and fast-scratch tensors and with the accelerator's SHRAM size; writes to the constants region and a fast-scratch extent above the configured arena cache "
+      "size in Dedicated-SRAM modes are violations.",
+      "Region numbering follows the custom operator's input order; only bytes of elements actually consumed are counted, so an overrun by brick padding only is not reported.",
+      "offline runtime trace checker (footprints of decoded command streams vs published extents)", "DESIGN.md 4/C02")
+
+check("C12", "exploration",
+      "Artefact checker over the same kind of campaign biased to CPU/NPU interleavings: OfflineMemoryAllocation offsets vs tensor sizes and lifetimes in the output operator order "
+      "(pairwise overlap while live, NPU in-place updates at an Ethos-U operator excepted), --cpu-tensor-alignment, scratch tensor at offset 0, custom-operator inputs/outputs and "
+      "every arena byte touched by the decoded command streams inside the scratch tensor, NPU writes not clobbering CPU tensors live across the operator, and the SRAM/DRAM figures "
+      "parsed from the console summary and the summary CSV at least the extent the plan requires.",
+      "Console figures are printed with two decimals: their display rounding (0.005 KiB) is tolerated; the CSV is judged exactly. Arena area per memory mode as documented.",
+      "offline artefact checker (arena plan, lifetimes, footprints, reports)", "DESIGN.md 4/C12")
